@@ -293,19 +293,16 @@ func registerIntrinsics(in *Interp) {
 
 	// ---- fmt ----
 	I["fmt.Sprintf"] = func(in *Interp, fr *frame, a []Val) Val {
-		if f := a[0].(Str).norm(); f.sym != nil {
-			return in.sprintfSym(fr, f, a[1].(Slice).a)
-		}
-		return in.sprintf(fr, concStr(a[0]), a[1].(Slice).a)
+		return in.sprintfAny(fr, a[0], a[1].(Slice).a)
 	}
 	I["fmt.Errorf"] = func(in *Interp, fr *frame, a []Val) Val {
-		s := in.sprintf(fr, concStr(a[0]), a[1].(Slice).a)
+		s := in.sprintfAny(fr, a[0], a[1].(Slice).a)
 		return in.newError(fr, s)
 	}
 	I["fmt.Sprint"] = func(in *Interp, fr *frame, a []Val) Val { return in.sprint(fr, a[0].(Slice).a, false) }
 	I["fmt.Sprintln"] = func(in *Interp, fr *frame, a []Val) Val { return in.sprint(fr, a[0].(Slice).a, true) }
 	I["fmt.Fprintf"] = func(in *Interp, fr *frame, a []Val) Val {
-		s := in.sprintf(fr, concStr(a[1]), a[2].(Slice).a)
+		s := in.sprintfAny(fr, a[1], a[2].(Slice).a)
 		return in.writeTo(fr, a[0].(Iface), s)
 	}
 	I["fmt.Fprint"] = func(in *Interp, fr *frame, a []Val) Val {
@@ -315,7 +312,7 @@ func registerIntrinsics(in *Interp) {
 		return in.writeTo(fr, a[0].(Iface), in.sprint(fr, a[1].(Slice).a, true))
 	}
 	I["fmt.Printf"] = func(in *Interp, fr *frame, a []Val) Val {
-		s := in.sprintf(fr, concStr(a[0]), a[1].(Slice).a)
+		s := in.sprintfAny(fr, a[0], a[1].(Slice).a)
 		in.stdout = append(in.stdout, s)
 		return Tuple{in.intv(s.Len()), Iface{}}
 	}
@@ -639,6 +636,14 @@ func (in *Interp) writeTo(fr *frame, w Iface, s Str) Val {
 		return in.invokeMethod(fr, w, "WriteString", []Val{s})
 	}
 	return in.invokeMethod(fr, w, "Write", []Val{in.bytesToSlice(s)})
+}
+
+// sprintfAny formats with a concrete or a symbolic format string.
+func (in *Interp) sprintfAny(fr *frame, format Val, args []Val) Str {
+	if f := format.(Str).norm(); f.sym != nil {
+		return in.sprintfSym(fr, f, args)
+	}
+	return in.sprintf(fr, concStr(format), args)
 }
 
 func isStringOperand(a Val) bool {
